@@ -17,11 +17,12 @@ let place s = if s = "panic" then PPanic else if s = "x" || s = "short" || s = "
 let join l = if l = [] then "-" else String.concat "," l
 let sort_by_key l = List.sort (fun (a, _) (b, _) -> compare (int_of_n a) (int_of_n b)) l
 let info_str (i : rinfo) =
-  Printf.sprintf "n=%s i=%s r=%s m=%s"
+  Printf.sprintf "n=%s i=%s r=%s m=%s l=%s"
     (join (List.map dec_of_n i.raft_nodes))
     (join (List.map (fun (k, v) -> dec_of_n k ^ ":" ^ dec_of_n v) (sort_by_key i.raft_ids)))
     (join (List.map (fun (k, (t, id)) -> dec_of_n k ^ ":" ^ dec_of_n id ^ ":" ^ dec_of_n t) (sort_by_key i.removings)))
     (dec_of_n i.max_id)
+    (join (List.map dec_of_n i.learners))
 let code_str = function
   | COk -> "ok" | CChanged -> "changed" | CWaiting -> "waiting" | CNoNode -> "nonode"
   | CConfInvalid -> "confinvalid" | CRegUnstable -> "regunstable" | CWaitSync -> "waitsync"
@@ -30,6 +31,7 @@ let code_str = function
 let ret_str = function RCode c -> code_str c | RBool b -> if b then "true" else "false" | RNone -> "-"
   | RPair (a, b) -> (if a then "true" else "false") ^ "," ^ (if b then "true" else "false")
   | RPanic -> "panic"
+  | RL LOk -> "lok" | RL LErr -> "lerr" | RL LRegErr -> "lregerr"
 let rm_str = function RMarked -> "marked" | RPending -> "pending" | RTransferred -> "data_transferred" | RDone -> "done"
 let b01 b = if b then "1" else "0"
 let atts_str (l : attempt list) =
@@ -37,13 +39,15 @@ let atts_str (l : attempt list) =
   String.concat "" (List.map (fun a ->
     Printf.sprintf "{%s g=%s %s}" (info_str a.a_value) (dec_of_n a.a_gen) (if a.a_ok then "ok" else "fail")) l)
 let state_str (s : st) =
-  Printf.sprintf "reg[%s e=%s] wait=%s un=%s au=%s ne=%s st=%s dn=%s rn=%s fail=%s"
+  Printf.sprintf "reg[%s e=%s] wait=%s un=%s au=%s ne=%s st=%s dn=%s rn=%s fail=%s ln=%s ls=%s"
     (info_str s.s_reg.r_info) (dec_of_n s.s_reg.r_info.epoch)
     (match s.s_waiting with None -> "-" | Some t -> dec_of_n t)
     (b01 s.s_unstable) (b01 s.s_auto) (dec_of_n s.s_nepoch) (dec_of_n s.s_stable)
     (join (List.map dec_of_n (List.sort (fun a b -> compare (int_of_n a) (int_of_n b)) s.s_nodes)))
     (join (List.map (fun (k, v) -> dec_of_n k ^ ":" ^ rm_str v) (sort_by_key s.s_rmnodes)))
     (dec_of_n s.s_reg.r_fail)
+    (join (List.map (fun (k, _) -> dec_of_n k) (sort_by_key s.s_lnodes)))
+    (match s.s_lstart with None -> "-" | Some true -> "1" | Some false -> "0")
 
 let parse_answers s =
   List.map (fun p ->
@@ -58,14 +62,21 @@ let parse_answers s =
          (k, Some (ms, sy = "1"))
        | _ -> failwith ("bad answer " ^ p))) (split_on ';' s)
 
+let parse_lnodes s =
+  if s = "-" || s = "" then [] else
+  List.map (fun p ->
+    let n = String.length p in
+    if n > 0 && p.[n - 1] = '!' then (n_of_dec (String.sub p 0 (n - 1)), false) else (n_of_dec p, true)) (split_on ',' s)
+
 let cur : st option ref = ref None
 
 let () =
   read_lines stdin (fun line ->
     match split_on '\t' line with
-    | id :: "I" :: replica :: nodes :: ids :: rms :: maxid :: auto :: _ ->
+    | id :: "I" :: replica :: nodes :: ids :: rms :: maxid :: auto :: rest ->
+      let lrn = (match rest with _ver :: l :: _ -> ints l | _ -> []) in
       let info = { raft_nodes = ints nodes; raft_ids = pairs ids; removings = triples rms;
-                   max_id = n_of_dec maxid; epoch = n_of_int 1 } in
+                   max_id = n_of_dec maxid; learners = lrn; epoch = n_of_int 1 } in
       let s = init_state (n_of_dec replica) info (auto = "1") in
       cur := Some s;
       Printf.printf "%s\t- | - | %s\n" id (state_str s)
@@ -83,7 +94,8 @@ let () =
        | None -> Printf.printf "%s\tno-sequence\n" id
        | Some s ->
          let ev = (match kind, f with
-           | "N", l :: _ -> Some (ENodes (ints l))
+           | "N", l :: ll :: _ -> Some (ENodes (ints l, parse_lnodes ll))
+           | "N", l :: _ -> Some (ENodes (ints l, []))
            | "A", l :: _ -> Some (EAnswer (parse_answers l))
            | "T", d :: _ -> Some (ETick (n_of_dec d))
            | "C", full :: _single :: pa :: pv :: _ -> Some (ECheck (full = "1", place pa, place pv))
@@ -96,6 +108,12 @@ let () =
            | "B", p :: _ -> Some (EBalance (place p))
            | "K", k :: _ -> Some (EMarkNode (n_of_dec k))
            | "P", p :: _ -> Some (EProcess (place p))
+           | "LC", _ -> Some ELCheck
+           | "LS", b :: _ -> Some (ELStart (b = "1"))
+           | "LA", k :: _ -> Some (ELAdd (n_of_dec k))
+           | "LL", k :: _ -> Some (ELLeader (n_of_dec k))
+           | "LR", k :: c :: _ -> Some (ELRemove (n_of_dec k, c = "1"))
+           | "LX", _ -> Some ELRemoveAll
            | _ -> None) in
          (match ev with
           | None -> Printf.printf "%s\tunsupported\n" id
